@@ -361,7 +361,7 @@ def run(ctx):
             files.append(("k-exclusion init=%d actors=%d procs=%d" % (init, nact, procs), pth))
         # threads of one process opening different names at the same moment
         nexe = build.driver("drv_sem_names", ["drv_sem_names.c"], variant="default")
-        nprefix = prefix + "_n"
+        nprefix = "vf%d_names_that_share_a_common_prefix_n" % os.getpid()      # (short names here: whatever is done differently for short names is covered too)
         names += ["%s_%d" % (nprefix, n) for n in (1, 2, 3)]
         base = ctx.path("names")
         cmd = [nexe, base, nprefix, str(150 if ctx.quick else 1500), str(rng.randint(1, 10 ** 6))]
